@@ -141,6 +141,8 @@ def pb_text(c, v, r):
         return "-----"
     if div == "nullkey" and v == c["nlev"] and i == 2:
         return None
+    if div == "padkey" and v == c["nlev"]:
+        return "  ~P%d.%d~ " % (v, i)
     if div == "resume" and v == c["nlev"]:
         return "-----" if i == 2 else "~P%d.%d~" % (v, i - 2 if i >= 3 else 1)
     if div == "cycle":
